@@ -26,8 +26,16 @@ RECURSIVE CsvSeqOf(_)
 CsvSeqOf(n) == IF n = 0 THEN <<>> ELSE Append(CsvSeqOf(n - 1), PickCsv(n))
 MkCsvCol(i) == [A |-> CsvSeqOf(RandomElement(1..3)), B |-> CsvSeqOf(RandomElement(1..2))]
 MkJsonCol(i) == [A |-> JDocs(RandomElement(1..3), 2), B |-> JDocs(RandomElement(1..2), 2)]
+(* object columns whose preview rows all carry the same keys while later rows carry a subset / other keys (a key that is missing from a nested
+   object after the preview is a NULL the inferred field type may not admit); also inside a list *)
+ObjOver(ns) == JObj(ns, JDocs(Len(ns), 0))
+MkObjCol(i) == LET full == IF RandomElement(1..2) = 1 THEN <<"a", "b">> ELSE <<"a", "b", "z">>
+                   inList == RandomElement(1..4) = 1
+                   wrap(o) == IF inList THEN JArr(<<o>>) ELSE o IN
+               [A |-> IF RandomElement(1..2) = 1 THEN <<wrap(ObjOver(full))>> ELSE <<wrap(ObjOver(full)), wrap(ObjOver(full))>>,
+                B |-> IF RandomElement(1..2) = 1 THEN <<wrap(ObjOver(SomeNames(1)))>> ELSE <<wrap(ObjOver(full)), wrap(ObjOver(SomeNames(1)))>>]
 RECURSIVE Cols(_, _)
-Cols(n, kind) == IF n = 0 THEN <<>> ELSE Append(Cols(n - 1, kind), IF kind = "csv" THEN MkCsvCol(n) ELSE MkJsonCol(n))
+Cols(n, kind) == IF n = 0 THEN <<>> ELSE Append(Cols(n - 1, kind), IF kind = "csv" THEN MkCsvCol(n) ELSE IF RandomElement(1..3) = 1 THEN MkObjCol(n) ELSE MkJsonCol(n))
 MkCase(i, kind) == [id |-> i, kind |-> kind, cols |-> Cols(RandomElement(1..3), kind), n |-> <<3, 7, 100, 102, 104, 104, 165>>[RandomElement(1..7)]]
 RECURSIVE CasesFrom(_, _, _)
 CasesFrom(lo, hi, kind) == IF lo > hi THEN <<>> ELSE IF lo = hi THEN <<MkCase(lo, kind)>> ELSE LET mid == (lo + hi) \div 2 IN CasesFrom(lo, mid, kind) \o CasesFrom(mid + 1, hi, kind)
